@@ -22,7 +22,11 @@ RULE = ('Histories as in C01 restricted to queue / skip_queue_when_not_needed '
         'and direct merges of PRs whose build check is bypassed. Non-trivial '
         '= a destination movement produced by a queue evaluation while >= 2 '
         'PRs were queued and >= 1 queue commit was not SUCCESSFUL; distinct '
-        'by hash of (params, steps).')
+        'by hash of (params, steps). In addition the queue shapes of '
+        'corpus/c05_disagreements.json (3-PR structures on which the C05 '
+        'sweep disagreed with its oracle before repair R9) are rebuilt on '
+        'real git through the real workflow and evaluated (quick: a '
+        'seed-dependent slice of 48, thorough: all).')
 ASSUMPTIONS = ['in-tree mock git host; real git on a local bare remote']
 
 
@@ -146,6 +150,117 @@ WEIGHTS = {'merge_queue': 25, 'report': 10, 'report_queue': 8, 'admin': 2,
            'comment': 2, 'approve': 6, 'pr_event': 12}
 
 
+def corpus_cases():
+    """Queue shapes on which the C05 sweep once disagreed with its oracle
+    (corpus/c05_disagreements.json), mapped onto World shapes."""
+    import json
+    import os
+    path = os.path.join(os.path.dirname(os.path.dirname(os.path.dirname(
+        os.path.abspath(__file__)))), 'corpus', 'c05_disagreements.json')
+    if not os.path.exists(path):
+        return []
+    out = []
+    for st_ in json.load(open(path))['structures']:
+        spec = st_['spec']
+        if spec.get('hotfixes'):
+            continue
+        try:
+            devs = [[int(x) for x in d.split('.')] for d in spec['devs']]
+        except ValueError:
+            continue
+        if any(len(d) != 2 for d in devs):
+            continue
+        stabs = [[int(x) for x in s_.split('.')[:2]] for s_ in spec['stabs']]
+        if len(devs) + len(stabs) > 5:
+            continue
+
+        def mapname(n):
+            if n.startswith('stabilization/'):
+                a, b, _ = n.split('/')[1].split('.')
+                return 'stabilization/%s.%s.4' % (a, b)
+            return n
+
+        def mapver(v):
+            parts = v.split('.')
+            return '.'.join(parts[:2] + ['4']) if len(parts) == 3 else v
+        for c in st_['cases']:
+            out.append({'devs': devs, 'stabs': stabs,
+                        'prs': [mapname(d) for _, d in spec['prs']],
+                        'failed': [[pr, mapver(v)] for pr, v in c['failed']]})
+    return out
+
+
+def corpus_shard(ctx, shard_no, acc):
+    """Replay corpus queue shapes on real Bert-E + real git."""
+    from vf.cli import jhash
+    from vf.sim.driver import History
+    from vf.sim.explore import ddmin
+    cases = corpus_cases()
+    if ctx['tier'] == 'quick':
+        # a seed-dependent slice: 3 cases per shard
+        n = ctx['nproc']
+        start = (ctx['seed'] * 7) % max(1, len(cases))
+        cases = [cases[(start + shard_no + k * n) % len(cases)]
+                 for k in range(3)] if cases else []
+    else:
+        cases = cases[shard_no::ctx['nproc']]
+    sc = Scratch()
+    try:
+        for c in cases:
+            params = {'devs': c['devs'], 'stabs': c['stabs'],
+                      'hotfix': 'none', 'mode': 'queue', 'options': [],
+                      'settings': {
+                          'always_create_integration_pull_requests': False,
+                          'required_peer_approvals': 1}}
+            hist = History(sc, params, monitors())
+            try:
+                for i, dst in enumerate(c['prs']):
+                    hist.apply({'op': 'open_pr', 'dst': dst, 'author': AUTHOR,
+                                'src': '%s/TEST-%d-c%d' % (PREFIXES[i % 3],
+                                                           i + 1, i + 1),
+                                'base_back': 0})
+                for pr in sorted(hist.world.prs):
+                    hist.apply({'op': 'pr_event', 'pr': pr})
+                    hist.apply({'op': 'approve', 'pr': pr, 'user': PEER1})
+                    hist.apply({'op': 'report_pr', 'pr': pr,
+                                'state': 'SUCCESSFUL'})
+                    hist.apply({'op': 'pr_event', 'pr': pr})
+                heads = hist.world.heads()
+                failed = set((p, v) for p, v in c['failed'])
+                for name in sorted(heads):
+                    if name.startswith('q/w/'):
+                        _, _, pr, ver = name.split('/')[:4]
+                        hist.apply({'op': 'report', 'sel': {'ref': name},
+                                    'state': 'FAILED' if (int(pr), ver)
+                                    in failed else 'SUCCESSFUL'})
+                qs = sorted(n for n in heads if n.startswith('q/') and
+                            not n.startswith('q/w/'))
+                if qs:
+                    hist.apply({'op': 'commit_event',
+                                'sel': {'ref': qs[-1]}})
+                acc.case(jhash(c), 'c03_nontrivial' in hist.flags,
+                         sample={'corpus_case': c,
+                                 'job_statuses': hist.job_statuses},
+                         classes=['corpus_replayed_on_real_git'])
+                for k, v in hist.stats.items():
+                    acc.classes[k] += v
+                if hist.violations:
+                    msg, sig = hist.violations[0]
+                    acc.violation(msg, hist.case(), sig)
+            finally:
+                hist.close()
+    finally:
+        sc.cleanup()
+
+
+def any_shard(ctx, job, acc):
+    kind, i = job
+    if kind == 'corpus':
+        corpus_shard(ctx, i, acc)
+    else:
+        shard(ctx, i, acc)
+
+
 def shard(ctx, i, acc):
     n = 8 if ctx['tier'] == 'quick' else 100
     explore(ctx, i, acc, monitors, n, steps=(14, 34), weights=WEIGHTS,
@@ -155,7 +270,9 @@ def shard(ctx, i, acc):
 
 
 def run(ctx):
-    return run_shards(__name__, 'shard', ctx, list(range(ctx['nproc'])))
+    jobs = [('hist', i) for i in range(ctx['nproc'])] + \
+        [('corpus', i) for i in range(ctx['nproc'])]
+    return run_shards(__name__, 'any_shard', ctx, jobs)
 
 
 def replay(ctx, case, acc):
